@@ -48,6 +48,7 @@ type Task struct {
 	lockCount  uint64
 	preLock    []Preempt
 	parked     bool // suspended right after acquiring a lock; resumed only when somebody waits or nobody else can run
+	held       []heldLock
 }
 
 // Event is one entry of the (optional) readable schedule trace.
@@ -80,6 +81,7 @@ type Sim struct {
 	Switches     uint64
 	Preempts     uint64
 	Spins        uint64
+	LockCycles   []LockCycle
 	stuck        int
 	LockPreempts uint64
 	Budget       uint64
@@ -151,6 +153,7 @@ func (s *Sim) BeginOp(idx int, kind string, pre []Preempt) {
 	t.pre = pre
 	t.preLock = nil
 	t.lockCount = 0
+	t.held = t.held[:0]
 	s.armTask(t)
 }
 
